@@ -8,6 +8,7 @@ arbitrary loop state; by the snoc law  T(xs ++ [x]) = T(xs) ++ step(x)  this giv
   unpivot.unpivot_rows           = flat-map: one fresh row per (input row, unpivoted field) = keys U kept cells U {value}
   *.func                         = dispatch: selected resources get the transducer, all others pass as the same object
 """
+from contracts import findings_natives as KF
 from contracts.common import (Item, mk_resource, mk_package, run_spec, ghost_row, expect_no_raise_or_same,
                               dispatch_symbolic, gen_of)
 
@@ -572,4 +573,5 @@ ITEMS = [
     Item('unpivot.unpivot_rows', sym_unpivot_rows, [('differential', nat_unpivot_rows)],
          'dataflows/processors/unpivot.py::unpivot_rows'),
     Item('unpivot.package-phase', sym_unpivot_pkg, [('end-to-end', nat_unpivot_flow)], 'dataflows/processors/unpivot.py::unpivot.func'),
+    Item('recorded-findings', None, [('bounded', KF.nat_findings_c17)], 'dataflows/processors/deduplicate.py::deduper'),
 ]
